@@ -256,10 +256,16 @@ static void cs_step_(char **tok, int n) {
 		 * only scripted while no pairing layer is in force */
 		const char *w = n > 1 ? tok[1] : "bad";
 		int thrown = 0;
-		RLC_TRY {
-			ep2_curve_set_twist(!strcmp(w, "d") ? RLC_EP_DTYPE : !strcmp(w, "m") ? RLC_EP_MTYPE : 0);
-		} RLC_CATCH_ANY {
-			thrown = 1;
+		if (strcmp(w, "d") != 0 && strcmp(w, "m") != 0) {
+			/* without a protected block of the harness around it: an enclosing block would put the chain right again
+			 * when it ends and hide what the call left behind */
+			ep2_curve_set_twist(0);
+		} else {
+			RLC_TRY {
+				ep2_curve_set_twist(!strcmp(w, "d") ? RLC_EP_DTYPE : RLC_EP_MTYPE);
+			} RLC_CATCH_ANY {
+				thrown = 1;
+			}
 		}
 		tr_printf("TWIST %s thrown=%d code=%d\n", w, thrown, err_get_code() != RLC_OK);
 	} else if (!strcmp(it, "EPSET")) {
